@@ -4,12 +4,27 @@ must equal those of B running alone."""
 import json, collections
 from p_sys import *
 
-def freeze_case(r, stage, ending, intruder=False):
+KIN_ENDINGS = ["failed_noparts", "failed_after_partfail", "pending_then_fail", "error_then_fail", "warn_then_fail", "two_parts_both_fail"]
+
+def kin_hashes(h, other):
+    """Payment hashes that are NOT h but share a prefix, a suffix or all but one byte with it (a sender chooses the hash of the
+    invoice it embeds: no preimage is needed for a payment that is meant to fail)."""
+    h, other = bytes(h), bytes(other)
+    return [h[:8] + other[8:], h[:16] + other[16:], other[:24] + h[24:], other[:16] + h[16:], h[:31] + bytes([h[31] ^ 1]), bytes([h[0] ^ 0x80]) + h[1:],
+            h[:4] + other[4:28] + h[28:]]
+
+def freeze_case(r, stage, ending, intruder=False, kin=None):
     cfg = mk_cfg(r, mpp_ms=120000)
-    b = CaseBuilder(r, cfg, 2)
+    b = CaseBuilder(r, cfg, 2 if kin is None else 1)     # (only A's hash has a preimage on file: the relative is hash index 1 by first appearance)
     pol = cfg["policy"]
     amtA, amtB = 1000000, 21000
-    invA, invB = b.add_invoice(0, amtA), b.add_invoice(1, amtB)
+    rawB = None
+    if kin is not None:
+        # B's hash is a near relative of A's (same first 8 / 16 bytes, same last bytes, one byte apart): two different payments
+        ks = kin_hashes(phash(0), phash(1)); rawB = ks[kin % len(ks)]
+        invA, invB = b.add_invoice(0, amtA), b.add_invoice(1, amtB, hash=rawB.hex())
+    else:
+        invA, invB = b.add_invoice(0, amtA), b.add_invoice(1, amtB)
     needA, needB = fee_needed(pol, amtA), fee_needed(pol, amtB)
     # A: one fully funded HTLC, advanced `stage` drain steps (0 = ListState not even processed ... up to pay running / waiting)
     nstage = stage if isinstance(stage, int) else 0
@@ -45,7 +60,7 @@ def freeze_case(r, stage, ending, intruder=False):
     pieces = split_amount(r, needB, 1 + r.below(2))
     b_events = []
     for p in pieces:
-        b_events.append(b.htlc(invB, p, needB, expiry=2500, rel=pol[2] + 20))
+        b_events.append(b.htlc(invB, p, needB, expiry=2500, rel=pol[2] + 20, raw_hash=rawB))
         b_events += [{"e": "drain_step", "h": 1}] * r.below(3)
     if intruder:
         # an HTLC of hash B that carries A's invoice (a confused or hostile sender): it is not a trampoline HTLC of anybody, and
@@ -55,7 +70,7 @@ def freeze_case(r, stage, ending, intruder=False):
     for e in pay_ending(r, ending):
         e = dict(e); e["h"] = 1; b_events.append(e)
     b_events += [{"e": "drain", "h": 1}]
-    base = {"cfg": cfg, "invoices": b.invoices, "preimages": b.preimages, "family": "freeze/stage%s/%s" % (stage_label, ending)}
+    base = {"cfg": cfg, "invoices": b.invoices, "preimages": b.preimages, "family": "freeze/stage%s/%s%s" % (stage_label, ending, "/kin%d" % kin if kin is not None else "")}
     if stage_label == "height":
         b_events = b_events + [{"e": "freeze_height", "on": False}, {"e": "drain"}]
         base["_nocorr"] = True
@@ -86,7 +101,7 @@ def run(tier, seed):
     o = Outcome("C14", tier, seed)
     T = tier == "thorough"
     o.rule = ("two payment hashes: A is driven to one of 23 stages of its lifecycle (state fetch unanswered ... pay running, waiting on a part, sitting on its timer, blocked reading the block height, each step of mark_failed after a failed pay and of mark_succeeded after a completed one) and frozen there "
-              "(no RPC of A is processed or delivered) while B runs one of 11 payment stories to completion; the same B script is run alone; B's responses, RPC calls, cancels and node replies "
+              "(no RPC of A is processed or delivered) while B runs one of 15 payment stories to completion (in some runs B's payment hash is a near relative of A's: same first 8 or 16 bytes, same last bytes, one byte apart); the same B script is run alone; B's responses, RPC calls, cancels and node replies "
               "must be identical; in a third of the cases one of B's HTLCs carries A's invoice and A's observations must equal those of A alone. The two-hash trace is also replayed through the product model (correspondence) and all composite monitors. Non-trivial: A has at least one outstanding "
               "RPC or armed timer while B pays; distinct = (stage, story, seed)")
     o.assumptions = list(COMMON_ASSUME)
@@ -103,6 +118,10 @@ def run(tier, seed):
                 pairs.append(freeze_case(r.fork(), stage, ending, intruder=(len(pairs) % 3 == 2)))
         for ending in (PAY_ENDINGS if T else PAY_ENDINGS[:3]):
             pairs.append(freeze_case(r.fork(), "height", ending))
+        # two payments whose hashes are near relatives (a map keyed by part of the hash pools them)
+        for i, stage in enumerate(range(0, 22) if T else [0, 2, 5, 8, 9, 11, 13]):
+            for j in range(2 if T else 1):
+                pairs.append(freeze_case(r.fork(), stage, KIN_ENDINGS[(i + j + rep) % len(KIN_ENDINGS)], kin=i + 3 * j + rep))
     try:
         cases = [c for p in pairs for c in p if c is not None]
         keep, verdicts, skewed = run_traces(binary, cases, "C14")
